@@ -71,10 +71,15 @@ def keysS3 : List Key := [(.L1, .S, 3), (.L2, .S, 3), (.D0, .S, 3), (.D1, .S, 3)
 def keysH1 : List Key := [(.L1, .H, 1), (.L2, .H, 1), (.L3, .H, 1), (.D0, .H, 1), (.B2, .H, 1)]
 def keysH2a : List Key := [(.L1, .H, 2), (.L2, .H, 2), (.D0, .H, 2), (.B2, .H, 2)]
 def keysH2b : List Key := [(.L3, .H, 2)]
-def keysH3 : List Key := [(.L1, .H, 3), (.D0, .H, 3)]
+def keysH3a : List Key := [(.L1, .H, 3), (.D0, .H, 3)]
+/-- 3-D tensor tables: samples through `tensor_table_correct`, gradient / Hessian identities by kernel evaluation -/
+def keysH3b : List Key := [(.L2, .H, 3), (.B2, .H, 3)]
+def keysH3 : List Key := keysH3a ++ keysH3b
+/-- tables with kernel-covered samples (through `tensor_table_correct`) but without a kernel-checked `gradOk` -/
+def sampleKeys : List Key := [(.L3, .H, 3)]
 /-- every table whose agreement with the samples of the real evaluator is checked by the Lean kernel
-    (3-D hypercube tables of degree ≥ 2 are tensor products of the checked 1-D tables; their samples are compared by
-    the translator and by the correspondence run only – kernel evaluation would take several minutes) -/
+    (3-D hypercube tables of degree ≥ 2 are tensor products of the checked 1-D tables; their samples are covered through
+    the generic `tensor_table_correct`) -/
 def checkedKeys : List Key := keysS2 ++ keysS3 ++ keysH1 ++ keysH2a ++ keysH2b ++ keysH3
 
 /-- keys with a kernel-checked duality statement: all edge orientations in 1-D/2-D, canonical orientation in 3-D -/
